@@ -6,6 +6,7 @@ require (
 	github.com/blevesearch/bleve/v2 v2.0.0
 	github.com/blevesearch/bleve_index_api v1.4.0
 	github.com/blevesearch/scorch_segment_api/v2 v2.4.8
+	github.com/blevesearch/upsidedown_store_api v1.0.2
 	go.etcd.io/bbolt v1.4.0
 )
 
@@ -13,6 +14,7 @@ require (
 	github.com/RoaringBitmap/roaring/v2 v2.14.5 // indirect
 	github.com/bits-and-blooms/bitset v1.24.2 // indirect
 	github.com/blevesearch/geo v0.2.5 // indirect
+	github.com/blevesearch/go-metrics v0.0.0-20201227073835-cf1acfcdf475 // indirect
 	github.com/blevesearch/go-porterstemmer v1.0.3 // indirect
 	github.com/blevesearch/goleveldb v1.0.1 // indirect
 	github.com/blevesearch/gtreap v0.1.1 // indirect
@@ -21,7 +23,6 @@ require (
 	github.com/blevesearch/snowball v0.6.1 // indirect
 	github.com/blevesearch/snowballstem v0.9.0 // indirect
 	github.com/blevesearch/stempel v0.2.0 // indirect
-	github.com/blevesearch/upsidedown_store_api v1.0.2 // indirect
 	github.com/blevesearch/vellum v1.2.0 // indirect
 	github.com/blevesearch/zapx/v11 v11.4.3 // indirect
 	github.com/blevesearch/zapx/v12 v12.4.3 // indirect
